@@ -157,10 +157,16 @@ class PackedEncoder:
             self._generate_signal(field, extension, prefix)
 
     def _generate_signal(
-        self, field: StructField, extension: Impl, prefix: str = ""
+        self,
+        field: StructField,
+        extension: Impl,
+        prefix: str = "",
+        declared_name: Optional[str] = None,
     ) -> NoReturn:
+        # The elements of an unrolled array take the options declared for the
+        # array field, not those of a field that happens to be named like them.
         fields: Dict[str, Any] = (
-            extension.get_signal(field.name)
+            extension.get_signal(declared_name or field.name)
             .and_then(lambda signal_block: Some(signal_block.fields))
             .unwrap_or({})
         )
@@ -173,7 +179,9 @@ class PackedEncoder:
             )
             return
         elif isinstance(field.type, ArrayType) and self.ctx.unroll_arrays:
-            self._generate_array_type(field.type, field, extension, prefix)
+            self._generate_array_type(
+                field.type, field, extension, prefix, declared_name or field.name
+            )
             return
 
         type_length = self._get_type_length(self.fcp, field.type)
@@ -227,14 +235,19 @@ class PackedEncoder:
             raise KeyError(f"Invalid type {type}")
 
     def _generate_array_type(
-        self, type: ArrayType, field: StructField, extension: Impl, prefix: str = ""
+        self,
+        type: ArrayType,
+        field: StructField,
+        extension: Impl,
+        prefix: str = "",
+        declared_name: Optional[str] = None,
     ) -> NoReturn:
         for i in range(type.size):
             derived_field = copy(field)
 
             derived_field.type = type.underlying_type
             derived_field.name = field.name + "_" + str(i)
-            self._generate_signal(derived_field, extension, prefix)
+            self._generate_signal(derived_field, extension, prefix, declared_name)
 
     def _generate(self, type: Type, extension: Impl, prefix: str = "") -> NoReturn:
         if isinstance(type, StructType) or isinstance(type, EnumType):
